@@ -234,6 +234,9 @@ def run_direct(case, stats):
         viol.append({"mechanism": "transfer-count", "detail": "%s: %d backend transfers for %d transport calls" % (where, len(transfers), len(expected_ms))})
     check_log(be, iface, link, where, viol, stats)
     # a backend error on the very next transfer must surface as the matching documented class, carrying the USBError
+    # (in a third of the cases the serial-number request fails as well, as it does when the device was unplugged)
+    adb.serial_fails = rng.random() < 0.33
+    stats["double_faults"] += 1 if adb.serial_fails else 0
     for fn, err, args, nm in ((t.bulk_write, exc.UsbWriteFailedError, (b"abc", 0.5), "bulk_write"), (t.bulk_read, exc.UsbReadFailedError, (10, 0.5), "bulk_read")):
         kind = rng.choice(sorted(fakeusb1.ERRORS))
         be.faults[be.ntransfers] = kind
@@ -247,6 +250,7 @@ def run_direct(case, stats):
             stats["faults_injected"] += 1
         except Exception as e:  # noqa
             viol.append({"mechanism": "fault-wrong-class", "detail": "%s: %s raised %s for a backend %s error, expected %s" % (where, nm, type(e).__name__, kind, err.__name__)})
+    adb.serial_fails = False
     ntr = len([c for c in be.calls if c[1] in ("bulkRead", "bulkWrite")])
     expected_ms += [("bulkWrite", 0.5), ("bulkRead", 0.5)]
     # close, then use after close -- in a third of the cases the backend fails while the interface is released / the handle closed
@@ -428,7 +432,7 @@ def run_fault(case, stats):
 
 
 def run_case(case):
-    stats = {"transfers_checked": 0, "faults_injected": 0, "sessions": 0, "connects_checked": 0, "timeouts_checked": 0, "use_after_close_checked": 0, "close_faults": 0, "failed_connects": 0}
+    stats = {"transfers_checked": 0, "faults_injected": 0, "sessions": 0, "connects_checked": 0, "timeouts_checked": 0, "use_after_close_checked": 0, "close_faults": 0, "failed_connects": 0, "double_faults": 0}
     if usb_mod() is None or repo.adb_device.UsbTransport is None:
         raise RuntimeError("harness: the fake usb1 module was not picked up")
     try:
